@@ -257,9 +257,9 @@ type OSPFv3 struct {
 func getLSAsv2(num uint32, data []byte) ([]LSA, error) {
 	var lsas []LSA
 	var i uint32 = 0
-	var offset uint32 = 0
+	var offset int = 0
 	for ; i < num; i++ {
-		if len(data) < int(offset)+20 {
+		if len(data) < offset+20 {
 			return nil, fmt.Errorf("Link State header too short")
 		}
 		lstype := uint16(data[offset+3])
@@ -282,7 +282,7 @@ func getLSAsv2(num uint32, data []byte) ([]LSA, error) {
 			Content: content,
 		}
 		lsas = append(lsas, lsa)
-		offset += uint32(lsalength)
+		offset += int(lsalength)
 	}
 	return lsas, nil
 }
@@ -503,10 +503,10 @@ func extractLSAInformation(lstype, lsalength uint16, data []byte) (interface{}, 
 func getLSAs(num uint32, data []byte) ([]LSA, error) {
 	var lsas []LSA
 	var i uint32 = 0
-	var offset uint32 = 0
+	var offset int = 0
 	for ; i < num; i++ {
 		var content interface{}
-		if len(data) < int(offset)+20 {
+		if len(data) < offset+20 {
 			return nil, fmt.Errorf("Link State header too short")
 		}
 		lstype := binary.BigEndian.Uint16(data[offset+2 : offset+4])
@@ -529,7 +529,7 @@ func getLSAs(num uint32, data []byte) ([]LSA, error) {
 			Content: content,
 		}
 		lsas = append(lsas, lsa)
-		offset += uint32(lsalength)
+		offset += int(lsalength)
 	}
 	return lsas, nil
 }
